@@ -26,6 +26,17 @@ Mismatch(exp, obs, free, c) ==
   {f \in Fields \ free : IF f = "p0" /\ c.op = "listen=" THEN SubSeq(exp.p0, 1, AW(obs)) # SubSeq(obs.p0, 1, AW(obs))
                          ELSE exp[f] # obs[f]}
 
+\* documented reductions of rf24_lite (C20): global dynamic payloads / payload length, auto-ack always on, no caches
+PostL(pre, uu, c) ==
+  IF Lite /\ c.op = "ack=" THEN (IF c.v THEN [pre EXCEPT !.dyn = 63, !.feat = SetField(pre.feat, 6, 6)]
+                                 ELSE [pre EXCEPT !.feat = SetBit(pre.feat, 1, FALSE)])
+  ELSE Post(pre, uu, c)
+FreeL(pre, uu, c) == IF Lite /\ c.op = "open_tx_pipe" THEN {"p0", "en"} ELSE FreeFields(pre, uu, c)
+RetL(pre, c) == IF Lite /\ c.op = "dynamic_payloads" THEN Bit(pre.feat, 2) = 1
+                ELSE IF Lite /\ c.op = "ack" THEN (pre.feat & 6) = 6 /\ pre.dyn # 0
+                ELSE Ret(pre, c)
+RetTagL(c) == IF Lite /\ c.op = "dynamic_payloads" THEN "bool" ELSE RetTag(c)
+
 CallClause(e) ==
   LET c == e.call  pre == St(PreOf(e))  post == St(e.post)  want == Exc(pre, c) IN
   IF Len(e.illegal) > 0 THEN <<"C03.NoIllegalWrite", e.illegal[1]>>
@@ -40,10 +51,10 @@ CallClause(e) ==
         ELSE <<"ok", "">>)
   ELSE IF IsGetter(c) THEN
        (IF Differs(pre, post) # {} THEN <<"C03.Frame", c.op \o " (getter) changed " \o ToString(Differs(pre, post))>>
-        ELSE IF e.rt # RetTag(c) THEN <<"C03.Getter", c.op \o " returned a " \o e.rt>>
-        ELSE IF e.rv # Ret(pre, c) THEN <<"C03.Getter", c.op \o " returned " \o ToString(e.rv) \o " expected " \o ToString(Ret(pre, c))>>
+        ELSE IF e.rt # RetTagL(c) THEN <<"C03.Getter", c.op \o " returned a " \o e.rt>>
+        ELSE IF e.rv # RetL(pre, c) THEN <<"C03.Getter", c.op \o " returned " \o ToString(e.rv) \o " expected " \o ToString(RetL(pre, c))>>
         ELSE <<"ok", "">>)
-  ELSE LET exp == Post(pre, u, c)  free == FreeFields(pre, u, c)  bad == Mismatch(exp, post, free, c) IN
+  ELSE LET exp == PostL(pre, u, c)  free == FreeL(pre, u, c)  bad == Mismatch(exp, post, free, c) IN
        IF bad = {} THEN <<"ok", "">>
        ELSE IF c.op = "listen=" /\ c.v /\ bad \subseteq {"p0", "en"} THEN <<"C08.RxP0", ToString(bad) \o " on entering RX">>
        ELSE IF c.op = "listen=" /\ bad \subseteq {"ce"} THEN <<"C08.CE", "CE after role change">>
